@@ -35,4 +35,26 @@ instance (a b : PKey) : Decidable (a.gt b) := by unfold PKey.gt; exact inferInst
 /-- Executable reference of the relation (printed by the driver next to the model's answer). -/
 def specHigher (a b : NetRule) : Bool := decide ((pkey a).gt (pkey b))
 
+/-- `AddsModifier r r'`: `r'` is `r` with one more modifier — one more option bit (enabled or
+    disabled), one more content type (permitted or restricted), or a modifier with a value list
+    (`$domain`, `$dnstype`, `$ctag`, `$client`, `$denyallow`) that `r` does not carry. -/
+inductive AddsModifier (r : NetRule) : NetRule → Prop where
+  | option (k : Nat) (h : r.enabled.testBit k = false) : AddsModifier r { r with enabled := r.enabled ||| 2 ^ k }
+  | disabledOption (k : Nat) (h : r.disabled.testBit k = false) :
+      AddsModifier r { r with disabled := r.disabled ||| 2 ^ k }
+  | contentType (k : Nat) (h : r.permTypes.testBit k = false) :
+      AddsModifier r { r with permTypes := r.permTypes ||| 2 ^ k }
+  | restrictedContentType (k : Nat) (h : r.restrTypes.testBit k = false) :
+      AddsModifier r { r with restrTypes := r.restrTypes ||| 2 ^ k }
+  | domain (ds : List Bytes) (h : r.permDomains = []) (hds : ds ≠ []) : AddsModifier r { r with permDomains := ds }
+  | restrictedDomain (ds : List Bytes) (h1 : r.permDomains = []) (h2 : r.restrDomains = []) (hds : ds ≠ []) :
+      AddsModifier r { r with restrDomains := ds }
+  | dnstype (p q : List Nat) (h1 : r.permDns = []) (h2 : r.restrDns = []) (hpq : p ≠ [] ∨ q ≠ []) :
+      AddsModifier r { r with permDns := p, restrDns := q }
+  | ctag (p q : List Bytes) (h1 : r.permTags = []) (h2 : r.restrTags = []) (hpq : p ≠ [] ∨ q ≠ []) :
+      AddsModifier r { r with permTags := p, restrTags := q }
+  | client (p q : Option Clients) (h1 : Clients.len r.permClients = 0) (h2 : Clients.len r.restrClients = 0)
+      (hpq : Clients.len p ≠ 0 ∨ Clients.len q ≠ 0) : AddsModifier r { r with permClients := p, restrClients := q }
+  | denyallow (ds : List Bytes) (h : r.denyallow = []) (hds : ds ≠ []) : AddsModifier r { r with denyallow := ds }
+
 end UF
